@@ -77,7 +77,7 @@ func (w *world) run(script []byte, entry callflag.CallFlag, extraSigners ...util
 	return res
 }
 
-// nestedBelow counts the contexts loaded below depth d of the (linear) path from the root.
+// nestedBelow counts the contexts loaded below depth d (the tree root is a dummy node, the entry script is at depth 1).
 func nestedBelow(t *invocations.Tree, d int) int {
 	if t == nil {
 		return 0
@@ -135,7 +135,7 @@ func denied(msg string) bool { return strings.Contains(msg, "missing call flags"
 
 // effectOracle is the property's direct oracle on one execution: f = flags of the context that ran the
 // primitive. Only successful executions count (a faulted one is discarded as a whole).
-func effectOracle(o *hx.Out, k int, what string, f callflag.CallFlag, r runResult, nested int) {
+func effectOracle(o *hx.Out, k int, what, keySuffix string, f callflag.CallFlag, r runResult, nested int) {
 	if r.panicky {
 		o.Fail("sweep-panic", k, "%s flags=%d: panic outside the VM: %s", what, f, r.msg)
 		return
@@ -144,13 +144,13 @@ func effectOracle(o *hx.Out, k int, what string, f callflag.CallFlag, r runResul
 		return
 	}
 	if r.writes > 0 && !f.Has(callflag.WriteStates) {
-		o.Fail("write-without-writestates", k, "%s executed with flags %d changed %d storage keys", what, f, r.writes)
+		o.Fail("write-without-writestates"+keySuffix, k, "%s executed with flags %d changed %d storage keys", what, f, r.writes)
 	}
 	if r.notifs > 0 && !f.Has(callflag.AllowNotify) {
-		o.Fail("notify-without-allownotify", k, "%s executed with flags %d emitted %d notifications", what, f, r.notifs)
+		o.Fail("notify-without-allownotify"+keySuffix, k, "%s executed with flags %d emitted %d notifications", what, f, r.notifs)
 	}
 	if nested > 0 && !f.Has(callflag.AllowCall) {
-		o.Fail("call-without-allowcall", k, "%s executed with flags %d started %d nested contexts", what, f, nested)
+		o.Fail("call-without-allowcall"+keySuffix, k, "%s executed with flags %d started %d nested contexts", what, f, nested)
 	}
 }
 
@@ -172,14 +172,14 @@ func (w *world) sweepSyscalls(o *hx.Out, k int) {
 			bw := io.NewBufBinWriter()
 			emit.AppCall(bw.BinWriter, w.proxy.Hash, sm.method, callflag.CallFlag(F))
 			r := w.run(bw.Bytes(), callflag.All)
-			nested := nestedBelow(r.tree, 1)
+			nested := nestedBelow(r.tree, 2)
 			obs := obsEffects(r.writes, r.notifs, nested)
 			verdict := "passed"
 			if denied(r.msg) {
 				verdict = "denied"
 			}
 			o.Line(fmt.Sprintf("sysseq %d %s %s", F, obs, strings.Join(sm.seq, " ")), verdict+" within")
-			effectOracle(o, k, "syscall "+f.Name, callflag.CallFlag(F), r, nested)
+			effectOracle(o, k, "syscall "+f.Name, "", callflag.CallFlag(F), r, nested)
 			o.Count("sweep:syscall:" + verdict)
 			if r.halt {
 				o.Count("sweep:syscall:halt")
@@ -225,7 +225,7 @@ func (w *world) nativeArgs(contract, method string, params []manifest.Parameter)
 	case "NeoToken.unclaimedGas/2":
 		return []any{w.acc, int64(h + 1)}
 	case "PolicyContract.blockAccount/1":
-		return []any{w.other}
+		return []any{w.proxy.Hash} // holds NEO: blocking revokes its vote and pays its GAS reward
 	case "PolicyContract.unblockAccount/1", "PolicyContract.isBlocked/1":
 		return []any{hashOf(201)}
 	case "PolicyContract.setAttributeFee/2":
@@ -243,7 +243,7 @@ func (w *world) nativeArgs(contract, method string, params []manifest.Parameter)
 	case "PolicyContract.setWhitelistFeeContract/4":
 		return []any{w.proxy.Hash, "noop", 0, 0}
 	case "PolicyContract.removeWhitelistFeeContract/3":
-		return []any{w.proxy.Hash, "noop", 0}
+		return []any{w.relays[0].c.Hash, "relay", 1}
 	case "PolicyContract.recoverFund/2":
 		return []any{hashOf(201), w.e.NativeHash(w.tb, nativenames.Gas)}
 	case "RoleManagement.designateAsRole/2":
@@ -301,14 +301,14 @@ func (w *world) nativeArgs(contract, method string, params []manifest.Parameter)
 func tinyContract(name string) ([]byte, []byte) {
 	config.Version = "verif"
 	bw := io.NewBufBinWriter()
-	emit.Opcodes(bw.BinWriter, opcode.RET)
+	emit.Opcodes(bw.BinWriter, opcode.RET, opcode.DROP, opcode.DROP, opcode.RET)
 	ne, err := nef.NewFile(bw.Bytes())
 	if err != nil {
 		panic(err)
 	}
 	m := manifest.DefaultManifest(name)
 	m.ABI.Methods = []manifest.Method{
-		{Name: "_deploy", Offset: 0, ReturnType: smartcontract.VoidType, Parameters: []manifest.Parameter{{Name: "data", Type: smartcontract.AnyType}, {Name: "isUpdate", Type: smartcontract.BoolType}}},
+		{Name: "_deploy", Offset: 1, ReturnType: smartcontract.VoidType, Parameters: []manifest.Parameter{{Name: "data", Type: smartcontract.AnyType}, {Name: "isUpdate", Type: smartcontract.BoolType}}},
 		{Name: "x", Offset: 0, ReturnType: smartcontract.VoidType, Parameters: []manifest.Parameter{}},
 	}
 	nb, _ := ne.Bytes()
@@ -329,6 +329,9 @@ func (w *world) prepareNativeState() {
 	neo.WithSigners(k2).Invoke(t, true, "registerCandidate", groupKey(100).PublicKey().Bytes())
 	pol := e.CommitteeInvoker(e.NativeHash(t, nativenames.Policy))
 	pol.Invoke(t, true, "blockAccount", hashOf(201))
+	if w.hf >= 6 {
+		pol.Invoke(t, nil, "setWhitelistFeeContract", w.relays[0].c.Hash, "relay", 1, 0)
+	}
 	if w.hf >= 5 { // Notary is active from Echidna
 		gas.Invoke(t, true, "transfer", w.acc, e.NativeHash(t, nativenames.Notary), 10_0000_0000, []any{nil, int64(w.bc.BlockHeight() + 300)})
 	}
@@ -341,6 +344,10 @@ func (w *world) sweepNatives(o *hx.Out, k int) {
 	hf := hfs[w.hf]
 	k2acc := groupKey(100).PublicKey().GetScriptHash()
 	single := w.pub.GetScriptHash()
+	legacy := ""
+	if w.hf < 5 {
+		legacy = "@legacy-hardforks"
+	}
 	for _, nc := range native.NewDefaultContracts(config.ProtocolConfiguration{}) {
 		hash := nc.Metadata().Hash
 		name := nc.Metadata().Name
@@ -359,7 +366,7 @@ func (w *world) sweepNatives(o *hx.Out, k int) {
 					break
 				}
 				r := w.run(bw.Bytes(), callflag.All, k2acc, single)
-				nested := nestedBelow(r.tree, 2)
+				nested := nestedBelow(r.tree, 3)
 				obs := obsEffects(r.writes, r.notifs, nested)
 				feff := callflag.CallFlag(F)
 				if m.MD.Safe {
@@ -371,7 +378,7 @@ func (w *world) sweepNatives(o *hx.Out, k int) {
 				}
 				o.Line(fmt.Sprintf("nat %s %s %d %d %d %s", name, m.MD.Name, np, w.hf, int(feff), obs), verdict+" within")
 				what := fmt.Sprintf("native %s.%s/%d (hardfork level %d)", name, m.MD.Name, np, w.hf)
-				effectOracle(o, k, what, feff, r, nested)
+				effectOracle(o, k, what, ":"+name+"."+m.MD.Name+legacy, feff, r, nested)
 				if m.MD.Safe && r.halt && (r.writes > 0 || r.notifs > 0) {
 					o.Fail("safe-method-modifies", k, "%s is safe and changed %d keys / emitted %d notifications (requested flags %d)", what, r.writes, r.notifs, F)
 				}
